@@ -7,6 +7,7 @@
 -/
 import DDProofs.MddProofs
 import DDProofs.MddConv
+import DDProofs.MddGcReach
 import DDProofs.Inv
 namespace DD
 
@@ -240,9 +241,140 @@ theorem C15_bddToMdd_partial (S : Int → MAsg → Bool) (L : Nat → Nat)
     have : s = ((u : Nat) : Int) := by omega
     rw [hden α hα, this]
 
-/-! ### non-vacuity -/
+/-! ### every reachable state -/
 
-/-- a fresh `MDD(dvars)` satisfies the invariant, with exact counts for the empty ledger -/
+/-- every state reachable from `MDD(dvars)` by successful calls — `find_or_add` with successors
+below the level (documented precondition), `ite`/`apply` on nodes of the manager, `incref`,
+`decref` of a reference the user holds, `collect_garbage` with or without roots, in any order
+and for any recorded `_free.pop()` schedule — satisfies the invariant, and every stored count
+is exactly in-degree + number of references the user holds -/
+theorem C15_reachable_inv (dv : List MVar) (m : MddMgr) (ext : Nat → Nat) (h : MReach dv m ext) :
+    MInv m ∧ RefExact m ext ∧ m.tbl.vars = dv :=
+  h.inv
+
+/-- in every reachable state, equal functions ⇔ equal references -/
+theorem C15_reachable_canonical (dv : List MVar) (m : MddMgr) (ext : Nat → Nat) (h : MReach dv m ext)
+    (hpos : ∀ i, i < m.tbl.nvars → 0 < m.tbl.arity i)
+    (u v : Int) (hu : m.tbl.Mem u) (hv : m.tbl.Mem v) :
+    (∀ a, MValid m.tbl a → denM m.tbl u a = denM m.tbl v a) ↔ u = v :=
+  C15_canonical m h.inv.1 hpos u v hu hv
+
+/-- in every reachable state, `collect_garbage()` frees exactly the unreferenced nodes: a node
+remains (with its tuple) iff it is reachable along successor edges from a node the user holds;
+nothing is created; surviving references keep their meaning; the result is reachable again -/
+theorem C15_gc_exact (dv : List MVar) (m : MddMgr) (ext : Nat → Nat) (h : MReach dv m ext)
+    (m' : MddMgr) (hr : mCollectGarbage none m = (.ok (), m')) :
+    MReach dv m' ext ∧
+    (∀ x n, m.tbl.node? x = some n → (m'.tbl.node? x = some n ↔ HeldReach m.tbl ext x)) ∧
+    (∀ x n, m'.tbl.node? x = some n → m.tbl.node? x = some n) ∧
+    (∀ u, m'.tbl.Mem u → ∀ a, denM m'.tbl u a = denM m.tbl u a) := by
+  obtain ⟨hi, hx, _⟩ := h.inv
+  have G := mddGc_spec m ext hi hx none m' hr
+  exact ⟨MReach.gc none m' h hr, fun x n hn => gc_exactly_reachable m ext hi hx m' hr x n hn,
+    G.sub.nodes, G.den⟩
+
+/-! ### non-vacuity: a concrete, non-trivial reachable manager
+
+Two integer variables `x ∈ {0,1,2}` (level 0) and `y ∈ {0,1}` (level 1); nodes:
+`2 = (y = 0)`, `3 = (x: [node 2, true, false])`, `4` = a node whose first successor was
+complemented on entry (so the reference returned is `-4`), `5` created by `ite` (warm
+computed table), node 3 held, `6` created by `apply`.  (Kernel evaluation of the model by
+`rfl`; the collection examples use the one-node manager because evaluating the worklist loop in
+the kernel is exponential in the number of state updates.) -/
+
+namespace C15Ex
+theorem pair_eta {α : Type} {x : Except Err α × MddMgr} {r : Except Err α} (h : x.1 = r) :
+    x = (r, x.2) := by
+  cases x; simp_all
+
+def dv : List MVar := [⟨"x", 0, 3, []⟩, ⟨"y", 1, 2, []⟩]
+def m0 : MddMgr := MddMgr.new (some dv)
+def s1 := mFindOrAdd 1 [1, -1] m0
+def s2 := mFindOrAdd 0 [2, 1, -1] s1.2
+def s3 := mFindOrAdd 0 [-1, 2, 1] s2.2
+def s4 := mIte 3 (-4) (-2) s3.2
+def s5 := mIncref 3 s4.2
+def s6 := mApply "xor" 3 (some (-4)) none s5.2
+-- collection: an unheld node is freed and its number re-used; a held node stays
+def g1 := mCollectGarbage none s1.2
+def g2 := mFindOrAdd 1 [-1, 1] g1.2
+def h1 := mIncref (-2) s1.2
+def h2 := mCollectGarbage none h1.2
+
+theorem e1 : s1 = (.ok 2, s1.2) := pair_eta (by rfl)
+theorem e2 : s2 = (.ok 3, s2.2) := pair_eta (by rfl)
+theorem e3 : s3 = (.ok (-4), s3.2) := pair_eta (by rfl)
+theorem e4 : s4 = (.ok (-5), s4.2) := pair_eta (by rfl)
+theorem e5 : s5 = (.ok (), s5.2) := pair_eta (by rfl)
+theorem e6 : s6 = (.ok 6, s6.2) := pair_eta (by rfl)
+theorem eg1 : g1 = (.ok (), g1.2) := pair_eta (by rfl)
+theorem eg2 : g2 = (.ok (-2), g2.2) := pair_eta (by rfl)
+theorem eh1 : h1 = (.ok (), h1.2) := pair_eta (by rfl)
+theorem eh2 : h2 = (.ok (), h2.2) := pair_eta (by rfl)
+
+theorem r1 : MReach dv s1.2 (fun _ => 0) :=
+  MReach.foa 1 [1, -1] 2 _ MReach.init (by decide) e1
+theorem r2 : MReach dv s2.2 (fun _ => 0) :=
+  MReach.foa 0 [2, 1, -1] 3 _ r1 (by decide) e2
+theorem r3 : MReach dv s3.2 (fun _ => 0) :=
+  MReach.foa 0 [-1, 2, 1] (-4) _ r2 (by decide) e3
+theorem r4 : MReach dv s4.2 (fun _ => 0) :=
+  MReach.ite 3 (-4) (-2) (-5) _ r3 (by decide) (by decide) (by decide) e4
+theorem r5 : MReach dv s5.2 (extInc (fun _ => 0) 3) :=
+  MReach.incref 3 _ r4 (by decide) e5
+theorem r6 : MReach dv s6.2 (extInc (fun _ => 0) 3) :=
+  MReach.apply "xor" .xor 3 (some (-4)) none 6 _ r5 (by decide) e6
+theorem rg1 : MReach dv g1.2 (fun _ => 0) := MReach.gc none _ r1 eg1
+theorem rh1 : MReach dv h1.2 (extInc (fun _ => 0) (-2)) := MReach.incref (-2) _ r1 (by decide) eh1
+
+/-- every variable has a value -/
+theorem hpos (m : MddMgr) (hv : m.tbl.vars = dv) : ∀ i, i < m.tbl.nvars → 0 < m.tbl.arity i := by
+  intro i hi
+  unfold MTbl.nvars at hi
+  unfold MTbl.arity MTbl.varAt?
+  rw [hv] at hi ⊢
+  have : i = 0 ∨ i = 1 := by simp [dv] at hi; omega
+  rcases this with rfl | rfl <;> decide
+
+end C15Ex
+
+/-- a fresh `MDD(dvars)` satisfies the invariant -/
 example (dv : List MVar) : MInv (MddMgr.new (some dv)) := MInv.init dv
+
+open C15Ex in
+/-- the hypotheses of the `find_or_add` / `ite` / `apply` / canonicity / structure theorems hold in
+a manager with shared sub-nodes, a complemented edge, a warm computed table and a held node -/
+example : MInv s6.2 ∧ RefExact s6.2 (extInc (fun _ => 0) 3) ∧
+    s6.2.tbl.node? 3 = some ⟨0, [2, 1, -1]⟩ ∧ s6.2.tbl.node? 4 = some ⟨0, [1, -2, -1]⟩ ∧
+    s6.2.cache[iteKey 3 (-4) (-2)]? = some (-5) ∧ s6.2.ref[3]? = some 1 ∧
+    (∀ i, i < s6.2.tbl.nvars → 0 < s6.2.tbl.arity i) :=
+  ⟨r6.inv.1, r6.inv.2.1, by rfl, by rfl, by rfl, by rfl, hpos _ r6.inv.2.2⟩
+
+open C15Ex in
+/-- the `find_or_add` theorem applies to the call that created node 3 (successors below level 0) -/
+example : MInv s1.2 ∧ (∀ k ∈ [2, 1, -1], (0 : Int).toNat < s1.2.tbl.levelOf k) ∧
+    mFindOrAdd 0 [2, 1, -1] s1.2 = (.ok 3, s2.2) :=
+  ⟨r1.inv.1, by decide, e2⟩
+
+open C15Ex in
+/-- the `ite` theorem applies to the call that produced node 5 (all three operands are nodes) -/
+example : MInv s3.2 ∧ s3.2.tbl.Mem 3 ∧ s3.2.tbl.Mem (-4) ∧ s3.2.tbl.Mem (-2) ∧
+    mIte 3 (-4) (-2) s3.2 = (.ok (-5), s4.2) :=
+  ⟨r3.inv.1, by decide, by decide, by decide, e4⟩
+
+open C15Ex in
+/-- the `apply` theorem applies: `xor` is a spelling of a propositional connective -/
+example : docConn "xor" = some .xor ∧ mApply "xor" 3 (some (-4)) none s5.2 = (.ok 6, s6.2) :=
+  ⟨by decide, e6⟩
+
+open C15Ex in
+/-- the collection theorems apply and are not trivial: the unheld node 2 is freed and its number
+is re-used by the next `find_or_add`; the held node 2 stays -/
+example : MReach dv s1.2 (fun _ => 0) ∧ mCollectGarbage none s1.2 = (.ok (), g1.2) ∧
+    (s1.2.tbl.node? 2).isSome = true ∧ g1.2.tbl.node? 2 = none ∧ g1.2.free = [2] ∧
+    g2.2.tbl.node? 2 = some ⟨1, [1, -1]⟩ ∧ g2.2.free = [] ∧
+    MReach dv h1.2 (extInc (fun _ => 0) (-2)) ∧ mCollectGarbage none h1.2 = (.ok (), h2.2) ∧
+    h2.2.tbl.node? 2 = some ⟨1, [1, -1]⟩ :=
+  ⟨r1, eg1, by rfl, by rfl, by rfl, by rfl, by rfl, rh1, eh2, by rfl⟩
 
 end DD
